@@ -248,8 +248,8 @@ type State struct {
 }
 
 type WalkOpts struct {
-	ForwardOnly bool                 // do not follow back edges (stay within one loop iteration)
-	Stop        func(n *Node) bool   // do not continue past this node
+	ForwardOnly bool                      // do not follow back edges (stay within one loop iteration)
+	Stop        func(n *Node) bool        // do not continue past this node
 	CutEdge     func(n *Node, i int) bool // treat successor i of n as absent
 	MaxStates   int
 }
